@@ -796,8 +796,15 @@ bool XMLReader::location()
             tracker.setPath(parser, l_path);
             tracker.increment(parser, 1);
 
-            /* Push location to parser builder. */
-            parser->proc_location(l_name.c_str(), l_invariant, l_exponentialRate);
+            /* Push location to parser builder. Like the grammar for the
+             * textual format, report an error of one call and go on
+             * with the next: a location whose name is taken already
+             * still becomes committed or urgent. */
+            try {
+                parser->proc_location(l_name.c_str(), l_invariant, l_exponentialRate);
+            } catch (TypeException& e) {
+                parser->handle_error(e);
+            }
             if (l_committed)
                 parser->proc_location_commit(l_name.c_str());
             if (l_urgent)
